@@ -1,7 +1,8 @@
 (* C12 dispatch: state elimination at AST level, and the bounded cross checks of the resulting
    expression against the source automaton / the NFA the library compiled from its own string. *)
 From Coq Require Import List Arith NArith Bool.
-From AV Require Import Base.Util Base.ITree Spec.Lang Spec.FA Spec.Regex0 Model.Codec Model.Decide Model.GNFA.
+From AV Require Import Base.Util Base.ITree Spec.Lang Spec.FA Spec.Regex0 Model.Codec Model.Decide Model.GNFA
+                       Model.GNFAStr Model.RegexParse Model.RegexBuild.
 Import ListNotations.
 
 Fixpoint enc_rex (r : rex) : itree :=
@@ -34,6 +35,40 @@ Definition answer (g : gnfa) (order syms : list nat) (k : nat) (src : word -> bo
      | None => L []
      end].
 
+(* ---- the string level (Model/GNFAStr.v) ----
+   op 3: [dfa, schedule, mode, impl string?]    GNFA.from_dfa(d).to_regex()
+   op 4: [nfa, schedule, mode, impl string?]    GNFA.from_nfa(n).to_regex()
+   The automaton is sent with its rows in the iteration order of the Python dicts and with the
+   character codes of Model/RegexLex.v as symbols.  schedule = one candidate order per loop
+   iteration (the iteration order of _find_min_connected_node's dict).
+   mode: 0 / 1 = the loop of to_regex under the schedule (1: also check the model's string);
+         2 / 3 = rip along the concatenation of the schedule without looking at the degrees
+                 (used when the implementation's choice could not be reproduced; 3: also check).
+   answer: [res [string?, rip order],
+            check of the model's string (when mode is odd and there is one),
+            check of the implementation's string (when given)]
+   check = [model parser verdict, res (first word on which the NFA the model compiles from the
+            string and the source disagree)] *)
+
+Definition enc_str_res (r : res (option str * list nat)) : itree :=
+  enc_res (fun x => L [enc_opt enc_nats (fst x); enc_nats (snd x)]) r.
+
+Definition chk_str (syms : list nat) (diff : nfa -> res (option word)) (s : str) : itree :=
+  L [enc_res (fun _ => L []) (parse s);
+     enc_res (enc_opt enc_nats) (bind (compile s (Some syms)) diff)].
+
+Definition run_str (g : sg) (sched : list (list nat)) (mode : nat) : res (option str * list nat) :=
+  if Nat.leb 2 mode then Ok (selim g (concat sched), concat sched) else sto_regex g sched.
+
+Definition answer_str (r : res (option str * list nat)) (syms : list nat) (diff : nfa -> res (option word))
+    (mode : nat) (impl : option str) : itree :=
+  L [enc_str_res r;
+     match r, Nat.odd mode with
+     | Ok (Some s, _), true => chk_str syms diff s
+     | _, _ => L []
+     end;
+     match impl with Some s => chk_str syms diff s | None => L [] end].
+
 Definition d12 (op : nat) (t : itree) : itree :=
   match op, t with
   | 1, L [td; to; tk; ti] =>      (* GNFA.from_dfa(d).to_regex() with the given rip order *)
@@ -48,5 +83,18 @@ Definition d12 (op : nat) (t : itree) : itree :=
       answer (gnfa_of_nfa n) order (n_syms n) k (nfa_acc n) impl
     | _, _, _, _ => bad_input
     end
+  | 3, L [td; ts; tf; ti] =>
+    match dec_dfa td, dec_list dec_nats ts, dec_nat tf, dec_opt dec_nats ti with
+    | Some d, Some sched, Some full, Some impl =>
+      answer_str (run_str (sgnfa_of_dfa d) sched full) (d_syms d) (fun m => nfa_dfa_diff m d) full impl
+    | _, _, _, _ => bad_input
+    end
+  | 4, L [tn; ts; tf; ti] =>
+    match dec_nfa tn, dec_list dec_nats ts, dec_nat tf, dec_opt dec_nats ti with
+    | Some n, Some sched, Some full, Some impl =>
+      answer_str (run_str (sgnfa_of_nfa n) sched full) (n_syms n) (fun m => nfa_diff m n) full impl
+    | _, _, _, _ => bad_input
+    end
   | _, _ => bad_input
   end.
+
